@@ -1846,6 +1846,8 @@ func flvRunContent1(c *Ctx, t *flvTriple, content *flvMsg, gen *flvGen, heavy bo
 	}
 	ref := bs[0]
 	r.evidence = flvClip(ref.dump)
+	// one (uncompared) case line per content, so that the evidence counts what was evaluated
+	c.Case("flavors", "content", []string{string(ref.m.ProtoReflect().Descriptor().FullName()), strconv.Itoa(len(bs)), HexB(ref.wire)}, []string{"checked"})
 
 	// ---- reflection dump
 	for _, bl := range bs[1:] {
